@@ -162,6 +162,9 @@ type faultCase struct {
 	known string // signature of a recorded finding: emitted when the outcome is a host panic containing knownMatch
 	knownMatch string
 	ctxCancel bool // run with a context that is cancelled
+	// the raw panic the instruction raises, for the correspondence with convertPanic's model
+	op, pkind, pmsg string
+	calleeNative    bool
 }
 
 func prog(body string) string {
@@ -243,6 +246,59 @@ func faultTable() []faultCase {
 	add("Call/unbounded-recursion", "println(unbounded(0))", pe)
 	add("Recover/named-result-assigned-under-nil-test", "println(namedResult())", "^nil$")
 	add("Append/func-literal", "var fs []func()\nfs = append(fs, func() {})\nprintln(len(fs))", "^nil$")
+	add("Defer-native/panics-while-unwinding", "defer host.PanicString()\npanic(\"a\")", pe)
+	add("Defer-native/stop-while-unwinding", "defer host.Stop()\npanic(\"a\")", "^Stop$")
+	add("Defer-native/panics-at-return", "defer host.PanicString()", pe+"native panic$")
+	raw := func(entry, op, kind, msg string, cn bool) {
+		for i := range t {
+			if t[i].entry == entry || (strings.HasSuffix(entry, "*") && strings.HasPrefix(t[i].entry, strings.TrimSuffix(entry, "*"))) {
+				if t[i].op == "" {
+					t[i].op, t[i].pkind, t[i].pmsg, t[i].calleeNative = op, kind, msg, cn
+				}
+			}
+		}
+	}
+	const dz = "runtime error: integer divide by zero"
+	raw("Div/int/integer-divide-by-zero", "OpDivInt", "go", dz, false)
+	raw("Rem/int/integer-divide-by-zero", "OpRemInt", "go", dz, false)
+	raw("Div/*", "OpDiv", "go", dz, false)
+	raw("Rem/*", "OpRem", "go", dz, false)
+	raw("DivInt/const-dividend", "OpDivInt", "go", dz, false)
+	raw("Load/nil-pointer", "OpAdd", "scriggo", "runtime error: invalid memory address or nil pointer dereference", false)
+	raw("Field/nil-pointer", "OpAdd", "scriggo", "runtime error: invalid memory address or nil pointer dereference", false)
+	raw("SetMap/nil-map", "OpSetMap", "go", "assignment to entry in nil map", false)
+	raw("SetMap/unhashable", "OpSetMap", "go", "runtime error: hash of unhashable type []int", false)
+	raw("Index-map/unhashable", "OpMapIndex", "go", "hash of unhashable type: []int", false)
+	raw("Delete/unhashable", "OpDelete", "go", "hash of unhashable type: []int", false)
+	raw("If/uncomparable", "OpIf", "go", "runtime error: comparing uncomparable type []int", false)
+	raw("Index/slice-out-of-range", "OpIndex", "string", "reflect: slice index out of range", false)
+	raw("Index/array-out-of-range", "OpIndex", "string", "reflect: array index out of range", false)
+	raw("IndexString/out-of-range", "OpIndexString", "go", "runtime error: index out of range [2] with length 2", false)
+	raw("SetSlice/out-of-range", "OpSetSlice", "string", "reflect: slice index out of range", false)
+	raw("Slice/bounds", "OpSlice", "string", "reflect.Value.Slice3: slice index out of bounds", false)
+	raw("StringSlice/bounds", "OpStringSlice", "go", "runtime error: slice bounds out of range [:5] with length 2", false)
+	raw("Assert/*", "OpAdd", "scriggo", "interface conversion", false)
+	raw("Close/nil-channel", "OpClose", "go", "close of nil channel", false)
+	raw("Close/closed-channel", "OpClose", "go", "close of closed channel", false)
+	raw("Send/closed-channel", "OpSend", "go", "send on closed channel", false)
+	raw("Convert/slice-to-array-pointer-length", "OpConvert", "string", "reflect: cannot convert slice with length 1 to pointer to array with length 2", false)
+	raw("MakeSlice/negative-len", "OpMakeSlice", "string", "reflect.MakeSlice: negative len", false)
+	raw("MakeSlice/len-larger-than-cap", "OpMakeSlice", "string", "reflect.MakeSlice: len > cap", false)
+	raw("MakeChan/negative", "OpMakeChan", "string", "reflect.MakeChan: negative buffer size", false)
+	raw("AppendSlice/overflow", "OpAppendSlice", "string", "reflect.Value.Grow: slice overflow", false)
+	raw("Panic/string", "OpPanic", "string", "boom", false)
+	raw("Panic/int", "OpPanic", "other", "", false)
+	raw("Panic/error", "OpPanic", "error", "native error value", false)
+	raw("Panic/struct", "OpPanic", "other", "", false)
+	raw("CallNative/panic-string", "OpCallNative", "string", "native panic", true)
+	raw("CallNative/panic-error", "OpCallNative", "error", "native error", true)
+	raw("CallNative/panic-int", "OpCallNative", "other", "", true)
+	raw("CallNative/Stop", "OpCallNative", "stop", "", true)
+	raw("CallNative/Fatal", "OpCallNative", "fatal", "", true)
+	raw("CallNative/runtime-error-in-native-code", "OpCallNative", "go", "runtime error: invalid memory address or nil pointer dereference", true)
+	raw("CallNative/index-error-in-native-code", "OpCallNative", "go", "runtime error: index out of range [3] with length 1", true)
+	raw("Go/nil-func", "OpGo", "error", "fatal error: go of nil func value", false)
+
 	mark := func(entry, sig, match string) {
 		for i := range t {
 			if t[i].entry == entry {
@@ -252,6 +308,9 @@ func faultTable() []faultCase {
 		}
 		panic("no entry " + entry)
 	}
+	mark("Defer-native/panics-while-unwinding", "host-panic:deferred-native-call-while-unwinding", "nil pointer dereference")
+	mark("Defer-native/stop-while-unwinding", "host-panic:deferred-native-call-while-unwinding", "nil pointer dereference")
+	mark("Defer-native/panics-at-return", "host-panic:deferred-native-panic-at-return", "native panic")
 	mark("Store/nil-pointer", "host-panic:nil-pointer-store", "reflect.Value.Set on zero Value")
 	mark("CallNative/callback-panics", "host-panic:callback-panic-is-fatal", "cb")
 	mark("Range/nil-array-pointer", "host-panic:range-nil-array-pointer", "reflect.Value.Len on zero Value")
@@ -282,6 +341,14 @@ func faultTable() []faultCase {
 	addT("Template/native-panic", tmplRun{files: one("i.html", "a{% boom() %}b"), name: "i.html"}, pe+"native panic$")
 	addT("Template/markdown-partial-without-converter", tmplRun{files: scriggo.Files{"index.html": []byte(`<p>{{ render "p.md" }}</p>`), "p.md": []byte("# t\n")}, name: "index.html"}, "^nil$")
 	mark("Template/markdown-partial-without-converter", "host-panic:no-markdown-converter", "no Markdown convert available")
+	raw("Text/write-error", "OpText", "out", "", false)
+	raw("Show/write-error", "OpShow", "out", "", false)
+	raw("Show/unshowable-html", "OpShow", "out", "", false)
+	raw("Template/div-by-zero", "OpDivInt", "go", dz, false)
+	raw("Template/Stop", "OpCallNative", "stop", "", true)
+	raw("Template/Fatal", "OpCallNative", "fatal", "", true)
+	raw("Template/native-panic", "OpCallNative", "string", "native panic", true)
+	raw("Template/markdown-partial-without-converter", "OpCallMacro", "fatal", "", false)
 	t = append(t, faultCase{entry: "Context/cancelled", kind: "program", src: prog("for {\n}"), want: "^ctx:context canceled$", ctxCancel: true})
 	return t
 }
@@ -383,4 +450,40 @@ func init() {
 			c.Line(fmt.Sprint(ok), fc.entry, normPanic(got))
 		}
 	})
+}
+
+// class of the real outcome, in the vocabulary of the model of VM.Run
+func outcomeClass(o string) string {
+	switch {
+	case o == "nil":
+		return "nil"
+	case strings.HasPrefix(o, "PanicError:"):
+		return "panic"
+	case o == "Stop":
+		return "stop"
+	case o == "write-error" || strings.HasPrefix(o, "error:cannot show"):
+		return "out"
+	case strings.HasPrefix(o, "error:"):
+		return "error"
+	case strings.HasPrefix(o, "HOSTPANIC(Fatal value)"):
+		return "fatal:passed"
+	case strings.HasPrefix(o, "HOSTPANIC:fatal error:"):
+		return "fatal:wrapped" // the payload is a *fatalError wrapped in a fatalError
+	case strings.HasPrefix(o, "HOSTPANIC"):
+		return "fatal:wrapped"
+	case strings.HasPrefix(o, "ctx:"):
+		return "ctx"
+	}
+	return "?" + o
+}
+
+func convCases(c *Ctx) {
+	for _, fc := range faultTable() {
+		if fc.op == "" {
+			continue
+		}
+		got := fc.run()
+		c.Line("conv", fc.op, b01(fc.calleeNative), fc.pkind, Hx(fc.pmsg), outcomeClass(got))
+		c.Count("fault-table-conversions")
+	}
 }
